@@ -387,7 +387,7 @@ func quickN(q, t int) func(string) int {
 func oracleC04(c *Sexp, obs parseObs) string {
 	if obs.viaParseFull != "" && obs.viaParseFull != obs.viaParse && !strings.Contains(obs.viaParseFull, "node index is out of bounds") {
 		// (Select's StaticCheck panics on an index beyond the children — the documented panic of that interpreter)
-		return fmt.Sprintf("parsley.Parse with transformation and static check enabled (no interpreter transforms or checks anything) differs: %s, without them: %s", obs.viaParseFull, obs.viaParse)
+		return fmt.Sprintf("parsley.Parse on a parser graph that already parsed another input, with transformation and static check enabled (no interpreter transforms or checks anything), differs: %s, on a fresh graph without them: %s", obs.viaParseFull, obs.viaParse)
 	}
 	if (obs.node == nil) == (obs.perr == nil) {
 		return fmt.Sprintf("parsley.Parse returned node=%v err=%v: exactly one of them must be non-nil", obs.node, obs.perr)
